@@ -1,0 +1,165 @@
+//go:build verif
+// +build verif
+
+package node
+
+// Direct-call harness of the verification effort for the persistence half of a raft node
+// (build tag `verif` only, add-only): a raftNode built by the real newRaftNode over a real WAL
+// directory, a real snapshotter and the real in-memory raft storage, opened the way startRaft /
+// restartNode do (ValidSnapshotEntries, LoadNewestAvailable, replayWAL) but without a running
+// raft.Node, transport or state machine.  VerifPersist.Ready hands one Ready to the REAL
+// processReady; a stub plays the apply loop's side of the hand-shake.  Nothing here judges.
+
+import (
+	"path/filepath"
+	"sync"
+
+	"github.com/youzan/ZanRedisDB/raft"
+	"github.com/youzan/ZanRedisDB/raft/raftpb"
+	"github.com/youzan/ZanRedisDB/snap"
+	"github.com/youzan/ZanRedisDB/transport/rafthttp"
+	"github.com/youzan/ZanRedisDB/wal"
+)
+
+type verifStubNode struct{ raft.Node }
+
+func (verifStubNode) Advance(rd raft.Ready)                   {}
+func (verifStubNode) ConfChangedCh() <-chan raftpb.ConfChange { return nil }
+func (verifStubNode) HandleConfChanged(cc raftpb.ConfChange)  {}
+func (verifStubNode) DebugString() string                     { return "verif persist harness" }
+
+type verifStubTransport struct{ rafthttp.Transporter }
+
+func (verifStubTransport) Send(m []raftpb.Message) {}
+
+type verifStubDS struct{}
+
+func (verifStubDS) CleanData() error                              { return nil }
+func (verifStubDS) RestoreFromSnapshot(raftpb.Snapshot) error     { return nil }
+func (verifStubDS) PrepareSnapshot(raftpb.Snapshot) error         { return nil }
+func (verifStubDS) GetSnapshot(uint64, uint64) (Snapshot, error)  { return nil, nil }
+func (verifStubDS) UpdateSnapshotState(term uint64, index uint64) {}
+func (verifStubDS) Stop()                                         {}
+
+// VerifPersist is one life of the persistence objects of a raft node on a directory.
+type VerifPersist struct {
+	rc      *raftNode
+	commitC <-chan applyInfo
+	quit    chan struct{}
+	wg      sync.WaitGroup
+}
+
+// VerifPersistState is what the raft storage of the node holds.
+type VerifPersistState struct {
+	First     uint64   `json:"first"`
+	Last      uint64   `json:"last"`
+	Terms     []uint64 `json:"terms"` // terms of First..Last
+	SnapIndex uint64   `json:"snapi"`
+	SnapTerm  uint64   `json:"snapt"`
+	HSTerm    uint64   `json:"hst"`
+	HSVote    uint64   `json:"hsv"`
+	HSCommit  uint64   `json:"hsc"`
+}
+
+// VerifOpenPersist opens (or creates) the persistence objects under dir.
+func VerifOpenPersist(dir string) (*VerifPersist, error) {
+	cfg := &RaftConfig{
+		GroupID: 1, GroupName: "verif-0", ID: 1, DataDir: dir,
+		WALDir: filepath.Join(dir, "wal"), SnapDir: filepath.Join(dir, "snap"),
+		RaftPeers:  map[uint64]ReplicaInfo{1: {NodeID: 1, ReplicaID: 1}},
+		SnapCount:  100000,
+		nodeConfig: &MachineConfig{NodeID: 1, ElectionTick: 10, TickMs: 100},
+	}
+	commitC, rc, err := newRaftNode(cfg, nil, false, verifStubDS{}, raft.NewRealMemoryStorage(), nil)
+	if err != nil {
+		return nil, err
+	}
+	rc.transport = verifStubTransport{}
+	rc.node = verifStubNode{}
+	if wal.Exist(cfg.WALDir) {
+		// the restart half of startRaft / restartNode
+		walSnaps, err := wal.ValidSnapshotEntries(cfg.WALDir)
+		if err != nil {
+			return nil, err
+		}
+		snapshot, err := rc.persistStorage.LoadNewestAvailable(walSnaps)
+		if err != nil && err != snap.ErrNoSnapshot {
+			return nil, err
+		}
+		if err := rc.replayWAL(snapshot, false); err != nil {
+			return nil, err
+		}
+	} else {
+		w, _, _, _, err := rc.openWAL(nil, false)
+		if err != nil {
+			return nil, err
+		}
+		if rs, ok := rc.persistStorage.(*raftPersistStorage); ok {
+			rs.WAL = w
+		}
+	}
+	rc.MarkReplayFinished()
+	p := &VerifPersist{rc: rc, commitC: commitC, quit: make(chan struct{})}
+	p.wg.Add(1)
+	go p.applyStub()
+	return p, nil
+}
+
+// applyStub answers the way the apply loop does: the snapshot transfer result, the wait for the
+// persisted snapshot, the wait for the raft log append, the end of the apply.
+func (p *VerifPersist) applyStub() {
+	defer p.wg.Done()
+	for {
+		select {
+		case ai := <-p.commitC:
+			if ai.applySnapshotResult != nil {
+				ai.applySnapshotResult <- nil
+				select {
+				case <-ai.raftDone:
+				case <-p.quit:
+					return
+				}
+			}
+			select {
+			case <-ai.raftDone:
+			case <-p.quit:
+				return
+			}
+			if ai.applyWaitDone != nil {
+				close(ai.applyWaitDone)
+			}
+		case <-p.quit:
+			return
+		}
+	}
+}
+
+// Ready hands rd to the real processReady (follower role: no SoftState).
+func (p *VerifPersist) Ready(rd raft.Ready) {
+	p.rc.processReady(rd)
+}
+
+// State reads the raft storage.
+func (p *VerifPersist) State() VerifPersistState {
+	var s VerifPersistState
+	rs := p.rc.raftStorage
+	s.First, _ = rs.FirstIndex()
+	s.Last, _ = rs.LastIndex()
+	s.Terms = []uint64{}
+	for i := s.First; i <= s.Last; i++ {
+		t, _ := rs.Term(i)
+		s.Terms = append(s.Terms, t)
+	}
+	sn, _ := rs.Snapshot()
+	s.SnapIndex, s.SnapTerm = sn.Metadata.Index, sn.Metadata.Term
+	hs, _, _ := rs.InitialState()
+	s.HSTerm, s.HSVote, s.HSCommit = hs.Term, hs.Vote, hs.Commit
+	return s
+}
+
+// Close ends this life (the files stay).
+func (p *VerifPersist) Close() {
+	close(p.quit)
+	p.wg.Wait()
+	p.rc.persistStorage.Close()
+}
